@@ -56,7 +56,7 @@ def case(draw):
         elif k == 7:
             steps.append(["e#", "", draw(st.booleans())])
         elif k <= 11:
-            steps.append(["b", draw(st.sampled_from(["1", "2", "3", "4", "5", "9", "+", "-", "+", "-", "%", "#", "^"]))])
+            steps.append(["b", draw(st.sampled_from(["1", "2", "3", "4", "5", "9", "+", "-", "+", "-", "%", "#", "^", "4294967297", "4294967298", "65537"]))])
         elif k == 12:
             steps.append(["b", "!"])
         elif k == 13:
